@@ -14,8 +14,10 @@ import (
 // every word used as literal text or as a data value.
 
 var (
-	varNames   = []string{"customer", "title", "city", "qty", "price", "owner", "memo", "code"}
-	condNames  = []string{"isVip", "hasNote", "showSum", "enabled", "urgent"}
+	// the last names of each pool are words as the syntax allows them beyond identifiers: a digit or an underscore
+	// first, digits only, one character, a name that differs from another one by case only
+	varNames   = []string{"customer", "title", "city", "qty", "price", "owner", "memo", "code", "total_2024", "2fa", "_", "Title", "007", "N"}
+	condNames  = []string{"isVip", "hasNote", "showSum", "enabled", "urgent", "IsVip", "_ok", "3d"}
 	blockNames = []string{"header", "summary", "content", "footer"}
 	imageNames = []string{"logo", "chart"}
 )
@@ -44,6 +46,10 @@ var topLists = []*schema{
 	{name: "rows", fields: []string{"colA", "colB"}, bools: []string{"bold"}},
 	{name: "tags", scalar: true},
 	{name: "nums", scalar: true},
+	{name: "2nd_list", fields: []string{"1st", "_f", "Label"}, bools: []string{"_on", "Done"}, subs: []*schema{
+		{name: "_kids", scalar: true},
+	}},
+	{name: "L", scalar: true},
 }
 
 // ---------------------------------------------------------------------------------------------
@@ -428,8 +434,14 @@ func (x *g) scalar() Val {
 	case k < 12:
 		return Val{T: "s", S: x.pick(valMultiline, "vm")}
 	case k < 14:
+		if x.chance(30, "viedge") {
+			return Val{T: "i", S: strconv.FormatInt(x.edgeInt(), 10)}
+		}
 		return Val{T: "i", S: strconv.Itoa(x.intn(-50, 5000, "vi"))}
 	case k < 15:
+		if x.chance(50, "vledge") {
+			return Val{T: "l", S: strconv.FormatInt(x.edgeInt(), 10)}
+		}
 		return Val{T: "l", S: strconv.FormatInt(int64(x.intn(-9, 9, "vl"))*1000000007+int64(x.intn(0, 999, "vl2")), 10)}
 	case k < 17:
 		return x.float()
@@ -445,6 +457,9 @@ func (x *g) scalar() Val {
 // is the shortest decimal denoting the float, hence "its value" as text without any formatting convention
 // (trailing zeros, ".0" for whole numbers and exponent forms never arise).
 func (x *g) float() Val {
+	if x.chance(40, "fedge") { // or a float at the edges of the type, see edge.go
+		return x.edgeFloat()
+	}
 	ip := x.intn(0, 999, "fi")
 	dec := x.intn(1, 3, "fd")
 	s := ""
@@ -466,6 +481,9 @@ func (x *g) item(s *schema, depth int) Val {
 	if s.scalar {
 		if s.name == "nums" {
 			if x.chance(50, "numk") {
+				if x.chance(25, "numedge") {
+					return Val{T: "i", S: strconv.FormatInt(x.edgeInt(), 10)}
+				}
 				return Val{T: "i", S: strconv.Itoa(x.intn(-9, 99, "num"))}
 			}
 			return x.float()
@@ -803,7 +821,7 @@ func genCase(t *rapid.T) Case {
 	x.levels = levels
 	var blocks []string
 	if levels > 1 || x.chance(15, "soloBlocks") {
-		blocks = append(blocks, blockNames[:x.intn(1, len(blockNames), "nblocks")]...)
+		blocks = x.blockNamesFor(x.intn(1, len(blockNames), "nblocks"))
 	}
 	c.Base = x.top(1, 7, blocks, true)
 	if x.hazard == "nestedctx" || x.hazard == "nestedabsent" {
@@ -840,6 +858,10 @@ func genCase(t *rapid.T) Case {
 		for i, n := 0, x.intn(1, 3, "seqn"); i < n; i++ {
 			c.Seq = append(c.Seq, x.uniform(nt, "seqk"))
 		}
+	}
+	// names of the templates: t0, t1, s0 ... or, for four families in ten, names as users write them
+	if nt := levels + len(c.Sibs); nt >= 2 && x.chance(40, "tplnames") {
+		c.Names = x.distinct(tplNamesUnusual, nt, "tpln")
 	}
 	c.Data = x.data()
 	// often: a used variable whose value names another supplied variable. With one template level this is judged
